@@ -124,5 +124,6 @@ impl<O: OffsetSizeTrait> GroupValues for GroupValuesBytes<O> {
         // in theory we could potentially avoid this reallocation and clear the
         // contents of the maps, but for now we just reset the map from the beginning
         self.map.take();
+        self.num_groups = 0;
     }
 }
